@@ -390,7 +390,8 @@ def _positions(plan, counts, rng):
     other = []
     if counts["zip_open"]:
         other.append({"kind": "zip_open", "k": 0})
-        other += [{"kind": "zip_write", "k": m} for m in range(M)]
+        other += [{"kind": "zip_write", "k": m, "when": w} for m in range(M)
+                  for w in ("before", "after", "torn")]
         other.append({"kind": "zip_close", "k": 0})
     other += [{"kind": "ser", "k": j} for j in range(J)]
     if counts["makedirs"]:
@@ -442,6 +443,9 @@ def run(plan):
             # late positions (skip-metadata, last attributes) and the first ones
             must = [p for p in other if p["kind"] in ("zip_open", "zip_close", "makedirs", "tempdir",
                                                        "unpicklable")]
+            zw = [p for p in other if p["kind"] == "zip_write"]
+            if zw:   # one member each for a lost, a landed-then-failed and a torn write
+                must += [zw[prng.randrange(len(zw))] for _ in range(3)]
             rest = [p for p in other if p not in must]
             prng.shuffle(rest)
             pool = list(store_pos)
